@@ -70,6 +70,7 @@ type Obligation struct {
 	body       *Body           // body the obligation is located in
 	blk        *ssa.BasicBlock // block the obligation is located in
 	loopRole   *Loop           // the loop whose invariant this obligation establishes/preserves
+	nfacts     int             // number of facts that existed when the obligation was generated
 	Abstracted bool
 }
 
@@ -109,6 +110,7 @@ type FT struct {
 	invHit        map[*Clause]bool
 	allTagsC      []string
 	namedLits     map[string]string
+	timeless      map[int]bool    // facts about the entry state / constants: usable by every obligation
 	invFacts      []invFact       // loop-invariant assumptions (excluded from obligations that must not lean on them)
 	refSources    map[string]bool // region|selector path of references that contracts dereference
 	nq            int
@@ -153,6 +155,20 @@ func (ft *FT) fact(t *T) {
 	if t == nil || isTrue(t) {
 		return
 	}
+	ft.facts = append(ft.facts, t)
+}
+
+// axiom records a fact that does not depend on the program point (entry state,
+// constants, immutable globals): every obligation may use it, whenever it was
+// first needed.
+func (ft *FT) axiom(t *T) {
+	if t == nil || isTrue(t) {
+		return
+	}
+	if ft.timeless == nil {
+		ft.timeless = map[int]bool{}
+	}
+	ft.timeless[len(ft.facts)] = true
 	ft.facts = append(ft.facts, t)
 }
 
@@ -209,7 +225,7 @@ func (ft *FT) entryRegion(name string) *T {
 	t := L(sym)
 	ft.entry[name] = t
 	if name == "H.Bytes" {
-		ft.fact(Eq(Sel(t, L("nil")), L("bempty"))) // a nil []byte is empty
+		ft.axiom(Eq(Sel(t, L("nil")), L("bempty"))) // a nil []byte is empty
 	}
 	return t
 }
